@@ -86,6 +86,47 @@ def make_world(kind, start, nthreads, ndraws, decisions=None, rng=None, p=0.0, m
         k.shutdown()
 
 
+def callers_of_one_node(rec, shard):
+    """Identifiers handed out by one node to different callers (two applications sending requests, the node's own
+    watchdog requests) are distinct.  Random start values are scripted to be EQUAL for every generator that is
+    created: independent counters would collide at once (equal starts are one of the outcomes of the real
+    randomness; with a single per-node generator they are irrelevant)."""
+    from dv import world as W
+    from diameter.message.commands import CreditControlRequest
+    for low in (1, 0x7ffff, 0xfffff):
+        case = {"callers": ["application 0", "application 1", "node (DWR)"], "scripted_random_low_bits": low}
+        w = W.NodeWorld({"peers": [{"name": "peer1.example", "ip": ["10.1.1.1"], "timers": {"idle": 2}}],
+                         "apps": [{"app_id": 4, "auth": True, "peers": [0], "handler": "answer"},
+                                  {"app_id": 3, "acct": True, "auth": False, "peers": [0], "handler": "answer"}],
+                         "node_timers": {"idle": 2, "dwa": 50, "cer": 50, "cea": 50, "wakeup": 1},
+                         "rng": ForcedRandom([low] * 64)})
+        try:
+            w.start()
+            c = w.handshake_in("peer1.example", auth=[4], acct=[3])
+            ids = []
+            for rnd in range(3):
+                for ai, app in enumerate(w.apps):
+                    m = CreditControlRequest()
+                    m.session_id = f"n;{rnd};{ai}"
+                    m.origin_host, m.origin_realm = W.NODE_HOST.encode(), W.NODE_REALM.encode()
+                    m.destination_realm, m.service_context_id = W.NODE_REALM.encode(), "x"
+                    m.cc_request_type, m.cc_request_number = 1, rnd
+                    m.header.application_id = app.application_id
+                    w.app_call(lambda m=m, app=app: app.send_request(m, timeout=1), name=f"sender{ai}")
+                w.advance(3)          # idle: the node sends a DWR of its own
+                for f in c.refresh():
+                    if f.is_request and f.code == 280:
+                        w.feed_msg(c, {"k": "DWA", "host": "peer1.example", "hbh": f.h["hbh"], "e2e": f.h["e2e"]})
+            out = [(f.code, f.h["e2e"]) for f in c.refresh() if f.is_request]
+            e2es = [e for _, e in out]
+            if len(set(e2es)) != len(e2es) or 0 in e2es:
+                rec.violation("C16/e2e/duplicate-across-callers", case,
+                              f"end-to-end identifiers of the requests one node sent: {[(cd, hex(e)) for cd, e in out]}")
+            rec.case(sha("callers", low, shard), ["e2e:callers-of-one-node"], sample=lambda: dict(case, requests=len(out)))
+        finally:
+            w.close()
+
+
 def ids_of(kind, results):
     flat = [v for r in results for v in r]
     if kind == "sess":
@@ -176,6 +217,9 @@ def shard_main(shard, nshards, tier, scale):
                      (["wrap"] if start >= (MAX64 if kind == 'sess' else MAX32) - 2 else []),
                      sample=lambda: dict(case, points=len(trace), values=results))
     rec.extra["exhaustive_schedules"] = total_sched
+
+    if shard == 2 % nshards:
+        callers_of_one_node(rec, shard)
 
     # random schedules beyond the bound
     n_rand = int((4000 if thorough else 300) * scale)
@@ -280,7 +324,7 @@ def run(tier, scale=1.0):
     for d in hyp.pool_run(shard_main, (tier, scale)):
         rec.merge(d)
     required = {"gen:seq": 1, "gen:sess": 1, "deviations:3": 1, "wrap": 1, "random-schedule": 1,
-                "sequential:wraps": 1, "sequential:low-to-high-carry": 1, "e2e-init": 1, "session-format": 1, "threads:3": 1}
+                "sequential:wraps": 1, "sequential:low-to-high-carry": 1, "e2e:callers-of-one-node": 1, "e2e-init": 1, "session-format": 1, "threads:3": 1}
     return finish(rec, tier=tier, level="exploration", rule=RULE, assumptions=ASSUME, t0=t0,
                   exhaustive=True, required_classes=required,
                   extra_cov={"exhaustive_part": "all schedules with <= 3 deviations (<= 2 for the largest 3-thread configurations in quick) for every listed configuration"})
